@@ -74,6 +74,7 @@ def _expected(case, els, idx, positions, cont, kind, rows=None):
 
 
 def evaluate(case):
+    import spatialpandas as sp
     kind, subtype, els = case['kind'], case['subtype'], case['elements']
     try:
         if not _valid_case({'kind': kind, 'elements': els, 'boxes': []}):
@@ -129,6 +130,10 @@ def evaluate(case):
         reps = 2 if h['kind'] == 'twice' else 1
         for rep in range(reps):
             got_obj = lib(B + ['cx', tag], lambda: obj.cx[xs, ys])
+            want_t = {'series': sp.GeoSeries, 'frame': sp.GeoDataFrame}.get(case['container'])
+            if want_t is not None and not isinstance(got_obj, want_t):
+                fails.append((B + [case['container'], 'cx', 'type', tag], f'cx on a {want_t.__name__} returned a {type(got_obj).__name__} ({len(sub)} rows, history {h})'))
+                break
             got = _describe(got_obj, case['container'])
             if got != exp:
                 what = 'type' if got['type'] != exp['type'] else (
